@@ -227,7 +227,7 @@ def check_schemas(rng, n):
             params = [a.arg for a in st.args.args]
             ok_nontrivial = 0
             for _ in range(n):
-                if set(params) & {'packet', 'a', 'o', 'c', 'cc'}:
+                if 'packet' in params:
                     args = _criteria_args(rng, params)
                     tried += 1
                     try:
@@ -287,7 +287,7 @@ def _criteria_args(rng, params):
             out.append(tree('and', rng.randint(0, 3)))
         elif p == 'o':
             out.append(tree('or', rng.randint(0, 3)))
-        elif p == 'cc':
+        elif p in ('cc', 'dl'):
             # a context calibrator: a list of Comparison-like criteria
             class Comparison(NS):
                 pass
